@@ -314,6 +314,12 @@ def scalar_boundaries(rng, bits=256):
     if bits == 256:
         v += [R - 1, R, R + 1, 2 * R - 1, 2 * R, 2 * R + 1, (3 * R) // 2, R // 2, (R + 1) // 2, R - BLS_X ** 2 % R,
               BLS_X, BLS_X - 1, BLS_X + 1, BLS_X ** 2, BLS_X ** 2 - 1, BLS_X ** 3, BLS_X ** 3 - 1, BLS_X ** 3 + 1, (BLS_X ** 4) % top, Q % R]
+    if bits == 256:
+        # a leading bit-prefix that is an exact multiple of |x| followed by many further bits (the partial remainder of the
+        # bit-serial division by |x| then equals the divisor exactly), also after the subtraction of r
+        for (m, sh) in ((1, 62), (1, 100), (3, 64), (5, 130), (0x1234567, 150), (1, 191)):
+            kk = ((m * BLS_X) << sh) + rng.getrandbits(sh - 1)
+            v += [kk % top, (kk + R) % top]
     v += [1 << k for k in range(8, bits, max(8, bits // 16))] + [(1 << k) - 1 for k in range(8, bits, max(8, bits // 16))]
     v += [rng.getrandbits(bits) for _ in range(8)] + [rng.getrandbits(rng.randrange(1, bits)) for _ in range(8)]
     # odd values whose low bits make the recoding add back at the top
@@ -390,6 +396,10 @@ def xdigit_stream(y, rng, reject_first=False, tail=96):
 def xrand_boundary_streams(rng):
     """draws that land exactly on / next to the group order (the rejection test `y < r`), and on digit boundaries"""
     ys = [R, R - 1, R + 1, 0, 1, R - BLS_X, R + BLS_X, BLS_X ** 3, BLS_X ** 3 - 1, (R // BLS_X ** 3) * BLS_X ** 3, 2 * R % BLS_X ** 4]
+    # r = (1, 0, |x|-1, |x|-1) in base |x|: every combination of small / maximal low digits under the two maximal high digits
+    top2 = (BLS_X - 1) * BLS_X ** 2 + (BLS_X - 1) * BLS_X ** 3
+    ys += [c0 + c1 * BLS_X + top2 for c0 in (0, 1, 2, BLS_X - 1) for c1 in (0, 1, 2, BLS_X - 1)]
+    ys += [c0 + c1 * BLS_X + (BLS_X - 2) * BLS_X ** 2 + (BLS_X - 1) * BLS_X ** 3 for (c0, c1) in ((0, 0), (BLS_X - 1, BLS_X - 1))]
     return [xdigit_stream(y, rng) for y in ys] + [xdigit_stream(R, rng, reject_first=True), xdigit_stream(R - 1, rng, reject_first=True)]
 
 def gen_gt(rng, n, tier):
@@ -398,6 +408,8 @@ def gen_gt(rng, n, tier):
     for k in rng.sample(sb, min(len(sb), n)) + [0, 1, R, R - 1, (1 << 256) - 1, 2 * R + 5]:
         s = rng.choice([1, 2, rng.randrange(R), R - 1])
         L.append("gt_exp %s %s %s" % (hx(s, 256), hx(k, 256), rng.choice(["n", "a"])))
+    for k in sb:
+        L.append("xadic %s" % hx(k, 256))
     for k in rng.sample(sb, 3) + [(1 << 256) - 1]:
         L.append("gt_expnd %s %s n" % (hx(rng.randrange(1, R), 256), hx(k, 256)))
     for _ in range(max(3, n // 3)):
@@ -454,6 +466,14 @@ def gen_pairing(rng, n, tier):
                     else: b = None
                 pts.append("%s %s" % (E1.aff(a, rng, canon=rng.random() < 0.5), E2.aff(b, rng, canon=rng.random() < 0.5)))
             L.append(("pairing_sum %s %s" % (sh, " ".join(pts))).strip())
+    # several G1 points paired with ONE G2 object (the harness passes the same pointer for byte-identical second arguments),
+    # plain and prepared, with an identity G1 member at the start / middle / end of the run
+    q = E2.aff(P2(), rng); q2 = E2.aff(P2(), rng)
+    for (sh, g1s, g2s) in (("aa", [None, P1()], [q, q]), ("aa", [P1(), None], [q, q]), ("aaa", [P1(), None, P1()], [q2, q, q]),
+                           ("aaa", [P1(), None, P1()], [q, q, q]), ("pp", [P1(), P1()], [q, q]), ("pp", [None, P1()], [q, q]),
+                           ("ppa", [P1(), P1(), P1()], [q, q, q]), ("apap", [P1(), P1(), None, P1()], [q, q, q, q])):
+        pts = ["%s %s" % (E1.aff(a, rng, canon=rng.random() < 0.5), b) for (a, b) in zip(g1s, g2s)]
+        L.append("pairing_sum %s %s" % (sh, " ".join(pts)))
     return L
 
 def small_x_subgroup_points(E, rng, count):
@@ -556,6 +576,9 @@ def gen_sampling(rng, n, tier):
         L.append("g2_hash %s" % bytes(rng.getrandbits(8) for _ in range(96)).hex())
     for h in ("00" * 48, "ff" * 48, Q.to_bytes(48, "big").hex(), (Q - 1).to_bytes(48, "big").hex()):
         L.append("g1_hash %s" % h); L.append("id_hash %s" % h)
+    # hashes that start long runs of x with x^3+4 a non-residue (24 and 32 increments before the first curve point)
+    for v in (682279, 6673924663):
+        h = v.to_bytes(48, "big").hex(); L.append("g1_hash %s" % h); L.append("id_hash %s" % h)
     L.append("g2_hash %s" % ("ff" * 96)); L.append("g2_hash %s" % ("00" * 96))
     for _ in range(max(2, n // 4)):
         L.append("g1_rand %s" % bytes(rng.getrandbits(8) for _ in range(49 * 128)).hex())
